@@ -24,6 +24,7 @@
 #include "scientificinfo.h"
 
 #define PLSCONVERGENCE 1e-8
+#define PLSMAXITERATIONS 10000 /* upper bound of NIPALS iterations for one latent variable */
 
 /**
  * PLS model data structure
